@@ -6,6 +6,7 @@ import (
 	"fmt"
 	"go/ast"
 	"go/constant"
+	"go/parser"
 	"go/token"
 	"os"
 	"path/filepath"
@@ -66,6 +67,11 @@ func collectAssigned(n ast.Node, into map[string]bool) {
 				for _, l := range s.Lhs {
 					if id, ok := l.(*ast.Ident); ok {
 						into[id.Name] = true
+					}
+					if ix, ok := l.(*ast.IndexExpr); ok {
+						if id, ok := ix.X.(*ast.Ident); ok {
+							into[id.Name] = true
+						}
 					}
 				}
 			} else {
@@ -535,6 +541,9 @@ func (t *tr) assign(s *ast.AssignStmt) error {
 		}
 		return t.assignOp(s, s.Lhs[0], opTok, s.Rhs[0])
 	}
+	if ix, isIx := s.Lhs[0].(*ast.IndexExpr); isIx && len(s.Lhs) == 1 && len(s.Rhs) == 1 && s.Tok == token.ASSIGN {
+		return t.elemAssign(s, ix, token.ILLEGAL, s.Rhs[0])
+	}
 	// right-hand side(s)
 	var rhs []ex
 	if len(s.Rhs) == 1 {
@@ -615,6 +624,13 @@ func (t *tr) assign(s *ast.AssignStmt) error {
 			if err != nil {
 				return err
 			}
+			if len(s.Rhs) == len(s.Lhs) {
+				if c, isCall := s.Rhs[i].(*ast.CallExpr); isCall {
+					if _, isConv := c.Fun.(*ast.ArrayType); isConv && e.t.k == kSlice {
+						v.fresh = true
+					}
+				}
+			}
 			t.emit("%s %s : %s := %s", letKw(v), v.lean, e.t.leanType(), e.s)
 			continue
 		}
@@ -640,7 +656,45 @@ func (t *tr) assign(s *ast.AssignStmt) error {
 	return nil
 }
 
+// elemAssign translates `v[i] = e` / `v[i] op= e` for a fresh local slice v.
+func (t *tr) elemAssign(n ast.Node, ix *ast.IndexExpr, op token.Token, rhs ast.Expr) error {
+	id, ok := ix.X.(*ast.Ident)
+	if !ok {
+		return t.fail(ix, "assignment to an element of a non-local slice")
+	}
+	v := t.lookup(id.Name)
+	if v == nil || v.c != nil || v.t == nil || v.t.k != kSlice || !v.fresh || !v.mut {
+		return t.fail(ix, "assignment to an element of %s: only local slices created by a conversion ([]rune(s), []byte(s)) may be modified (others may alias an argument)", id.Name)
+	}
+	i, err := t.intIndex(ix.Index)
+	if err != nil {
+		return err
+	}
+	var val ex
+	if op == token.ILLEGAL {
+		if val, err = t.expr(rhs); err != nil {
+			return err
+		}
+	} else {
+		if val, err = t.binary(&ast.BinaryExpr{X: ix, Op: op, Y: rhs, OpPos: n.Pos()}); err != nil {
+			return err
+		}
+	}
+	if val, err = t.as(n, val, v.t.elem); err != nil {
+		return err
+	}
+	t.tmp++
+	iv := fmt.Sprintf("r_%d", t.tmp)
+	t.partial = true
+	t.emit("let %s : Int := %s", iv, i)
+	t.emit("%s := (← Go.set %s %s %s)", v.lean, v.lean, iv, atom(val.s))
+	return nil
+}
+
 func (t *tr) assignOp(n ast.Node, lhs ast.Expr, op token.Token, rhs ast.Expr) error {
+	if ix, isIx := lhs.(*ast.IndexExpr); isIx {
+		return t.elemAssign(n, ix, op, rhs)
+	}
 	id, ok := lhs.(*ast.Ident)
 	if !ok {
 		return t.fail(lhs, "assignment to %T (only local variables can be assigned)", lhs)
@@ -847,7 +901,7 @@ func (t *tr) switchStmt(s *ast.SwitchStmt) error {
 			return err
 		}
 		switch e.t.k {
-		case kBool, kUint, kInt:
+		case kBool, kUint, kInt, kStr:
 		default:
 			return t.fail(s.Tag, "switch on %s", e.t)
 		}
@@ -1212,4 +1266,130 @@ func readFileCached(path string) ([]byte, error) {
 		fileCache[path] = b
 	}
 	return b, err
+}
+
+// ---------------------------------------------------------------- fragments
+//
+// A fragment is one expression of a function that is not translatable as a whole:
+//
+//	name(in1:T1, in2:T2, …) cond <condition of an if statement, as printed by gofmt>
+//	name(in1:T1, …) expr <variable>      the right-hand side of the first `variable := …` / `variable = …`
+//
+// The inputs are the free variables of the expression (an input may be a selector such as
+// `params.Columns` or an index such as `w[0]`: every occurrence of that text is the input); their types
+// are given in Go syntax and resolved in the package of the function.  The result is a Lean `def`
+// `<prefix><Func>_<name>`.  If the locator does not match exactly one place, or the expression
+// mentions anything that is neither an input nor a constant, the extraction fails.
+func (t *tr) fragment(spec string) (string, error) {
+	fd := t.fd
+	open := strings.Index(spec, "(")
+	cl := strings.Index(spec, ")")
+	if open <= 0 || cl < open {
+		return "", t.fail(fd, "fragment specification %q: expected name(inputs) kind locator", spec)
+	}
+	fname := strings.TrimSpace(spec[:open])
+	rest := strings.TrimSpace(spec[cl+1:])
+	var kindW, locator string
+	if i := strings.IndexByte(rest, ' '); i > 0 {
+		kindW, locator = rest[:i], strings.Join(strings.Fields(rest[i+1:]), " ")
+	}
+	if kindW != "cond" && kindW != "expr" {
+		return "", t.fail(fd, "fragment specification %q: kind must be cond or expr", spec)
+	}
+	t.assigned = map[string]bool{}
+	t.push()
+	t.fragIn = map[string]*lvar{}
+	var params []*lvar
+	for _, in := range strings.Split(spec[open+1:cl], ",") {
+		in = strings.TrimSpace(in)
+		if in == "" {
+			continue
+		}
+		c := strings.LastIndex(in, ":")
+		if c <= 0 {
+			return "", t.fail(fd, "fragment input %q: expected text:type", in)
+		}
+		text, typ := strings.TrimSpace(in[:c]), strings.TrimSpace(in[c+1:])
+		te, err := parser.ParseExpr(typ)
+		if err != nil {
+			return "", t.fail(fd, "fragment input %q: %v", in, err)
+		}
+		g, err := t.ctx().resolveType(te, t.prefix)
+		if err != nil {
+			return "", t.fail(fd, "fragment input %q: %v", in, err)
+		}
+		if g.k == kSink || g.k == kErr {
+			return "", t.fail(fd, "fragment input of type %s", g)
+		}
+		xe, err := parser.ParseExpr(text)
+		if err != nil {
+			return "", t.fail(fd, "fragment input %q: %v", in, err)
+		}
+		lean := leanIdent(strings.NewReplacer(".", "_", "[", "_", "]", "").Replace(trExprText(xe)))
+		v := &lvar{lean: lean, t: g}
+		t.fragIn[trExprText(xe)] = v
+		params = append(params, v)
+	}
+	// locate the expression
+	var found []ast.Expr
+	ast.Inspect(fd.Body, func(n ast.Node) bool {
+		switch s := n.(type) {
+		case *ast.IfStmt:
+			if kindW == "cond" && trExprText(s.Cond) == locator {
+				found = append(found, s.Cond)
+			}
+		case *ast.AssignStmt:
+			if kindW == "expr" && len(s.Lhs) == 1 && len(s.Rhs) == 1 && (s.Tok == token.DEFINE || s.Tok == token.ASSIGN) {
+				if id, ok := s.Lhs[0].(*ast.Ident); ok && id.Name == locator && len(found) == 0 {
+					found = append(found, s.Rhs[0])
+				}
+			}
+		}
+		return true
+	})
+	if len(found) != 1 {
+		return "", t.fail(fd, "fragment %s: the locator %q matches %d places in %s (need exactly 1)", fname, locator, len(found), t.goName)
+	}
+	x := found[0]
+	e, err := t.expr(x)
+	if err != nil {
+		return "", err
+	}
+	if kindW == "cond" {
+		if e, err = t.as(x, e, tBool); err != nil {
+			return "", err
+		}
+	} else if e, err = t.defaulted(x, e); err != nil {
+		return "", err
+	}
+	if e.t.k == kTuple || e.t.k == kRuneASCII {
+		return "", t.fail(x, "fragment of type %s", e.t)
+	}
+	var ps []string
+	for _, v := range params {
+		ps = append(ps, fmt.Sprintf("(%s : %s)", v.lean, v.t.leanType()))
+	}
+	lean := t.prefix + strings.ReplaceAll(t.goName, ".", "_") + "_" + fname
+	pos := t.p.fset.Position(x.Pos())
+	rel, _ := filepath.Rel(t.p.root, pos.Filename)
+	var sb strings.Builder
+	sb.WriteString("set_option linter.unusedVariables false in\n")
+	fmt.Fprintf(&sb, "/-- fragment `%s` of `%s` (%s:%d): ", fname, t.goName, rel, pos.Line)
+	if kindW == "cond" {
+		sb.WriteString("the condition of `if` \n")
+	} else {
+		fmt.Fprintf(&sb, "the value assigned to `%s` \n", locator)
+	}
+	if t.partial {
+		sb.WriteString("Option monad: `none` means that evaluating the expression panics in Go.\n")
+	}
+	sb.WriteString("```go\n")
+	sb.WriteString(strings.ReplaceAll(strings.ReplaceAll(trExprText(x), "-/", "- /"), "/-", "/ -"))
+	sb.WriteString("\n```\n-/\n")
+	if t.partial {
+		fmt.Fprintf(&sb, "def %s %s : Option %s := do\n  return %s\n", lean, strings.Join(ps, " "), parenType(e.t.leanType()), e.s)
+	} else {
+		fmt.Fprintf(&sb, "def %s %s : %s :=\n  %s\n", lean, strings.Join(ps, " "), e.t.leanType(), e.s)
+	}
+	return sb.String(), nil
 }
